@@ -2,13 +2,11 @@
 import json, os
 VERIF = os.path.dirname(os.path.dirname(os.path.abspath(__file__)))
 
-CLAIMED = {
- "C20": dict(
-   text="Theorems about the Gallina model of complete_aam/initialize_aam (Props/C20.v, closed under the global context): termination of the while loop for every input, all nodes mapped, old numbers kept, i-th new number = least unused integer from the requested start, hence injectivity; initialize_aam refuses iff a node is mapped. The model is tied to /repo by exact comparison of whole output graphs (kernel vm_compute vs. Python) and the proved-sound checker complete_okb is run on every implementation output.",
-   note="Trusted: Coq kernel/vm_compute, harness serialisation, generators; node attribute dict restricted to the five keys FGUtils uses; ints unbounded on both sides.",
-   technique="Coq proof (induction over the node list with a counter invariant, pigeonhole for loop termination) + model/implementation correspondence by in-kernel evaluation + proved-sound decidable checker",
-   design="6/C20"),
-}
+CLAIMED = {}
+_cd = os.path.join(VERIF, "harness", "claims")
+for _f in sorted(os.listdir(_cd)):
+    if _f.endswith(".json"):
+        CLAIMED[_f[:-5]] = json.load(open(os.path.join(_cd, _f)))
 
 NOT_YET = {}
 
